@@ -10,6 +10,7 @@ pub mod c05;
 pub mod c06;
 pub mod c07;
 pub mod c13;
+pub mod c14;
 pub mod c15;
 
 pub trait Check: UnitRunner {
@@ -31,6 +32,7 @@ pub fn make(id: &str, tier: Tier) -> Option<Box<dyn Check>> {
     "C06" => Some(Box::new(c06::C06::new(tier))),
     "C07" => Some(Box::new(c07::C07::new(tier))),
     "C13" => Some(Box::new(c13::C13::new(tier))),
+    "C14" => Some(Box::new(c14::C14::new(tier))),
     "C15" => Some(Box::new(c15::C15::new(tier))),
     _ => None,
   }
